@@ -63,7 +63,10 @@ type PFCPConn struct {
 
 	metrics.InstrumentPFCP
 
-	hbReset     chan struct{}
+	hbReset chan struct{}
+	// hbCtxCancel stops the running heartbeat monitor. It is set by the monitor's goroutine
+	// and used by Shutdown, hbMu guards it.
+	hbMu        sync.Mutex
 	hbCtxCancel context.CancelFunc
 
 	pendingReqs sync.Map
@@ -73,15 +76,23 @@ type PFCPConn struct {
 	shutdownOnce sync.Once
 }
 
-func (pConn *PFCPConn) startHeartBeatMonitor() {
-	// Stop HeartBeat routine if already running
-	if pConn.hbCtxCancel != nil {
-		pConn.hbCtxCancel()
-		pConn.hbCtxCancel = nil
-	}
+// setHeartBeatCancel installs the cancel function of the heartbeat monitor that is about to run
+// (nil for none) and stops the monitor that was running, if any.
+func (pConn *PFCPConn) setHeartBeatCancel(cancel context.CancelFunc) {
+	pConn.hbMu.Lock()
+	old := pConn.hbCtxCancel
+	pConn.hbCtxCancel = cancel
+	pConn.hbMu.Unlock()
 
+	if old != nil {
+		old()
+	}
+}
+
+func (pConn *PFCPConn) startHeartBeatMonitor() {
 	hbCtx, hbCancel := context.WithCancel(pConn.ctx)
-	pConn.hbCtxCancel = hbCancel
+	// Stop HeartBeat routine if already running
+	pConn.setHeartBeatCancel(hbCancel)
 
 	logger.PfcpLog.With("interval", pConn.upf.hbInterval).Infoln("starting Heartbeat timer")
 
@@ -243,10 +254,7 @@ func (pConn *PFCPConn) Shutdown() {
 func (pConn *PFCPConn) shutdownConn() {
 	close(pConn.shutdown)
 
-	if pConn.hbCtxCancel != nil {
-		pConn.hbCtxCancel()
-		pConn.hbCtxCancel = nil
-	}
+	pConn.setHeartBeatCancel(nil)
 
 	// Cleanup all sessions in this conn
 	for _, sess := range pConn.store.GetAllSessions() {
